@@ -364,7 +364,7 @@ class Lysosome:
     def _digest_toxic(self, waste: Waste) -> dict:
         """Process toxic/sensitive waste."""
         # Notify callback if set
-        if self.on_toxic:
+        if self.on_toxic is not None:
             self.on_toxic(waste)
 
         # Securely dispose - don't recycle anything
